@@ -205,6 +205,14 @@ int main(int argc, char** argv) {
   verif::on_abort(onAbort);
 #endif
   vh::Rng rng(g_seed);
+  if (g_mode == "pool16") {
+    // regions with changing thread counts up to the full pool (the wake-up tree has sub-trees only from 11 threads on); the check
+    // runs this mode confined to one or two CPUs, so that a thread woken early really runs before its parent continues
+    g_mode = "free";
+    onEachAndRegions(rng, galois::substrate::getThreadPool().getMaxThreads(), thorough ? 600 : 150);
+    fprintf(stderr, "doall(pool16): %lld records\n", o.n);
+    return 0;
+  }
   bool ctl = g_mode == "ctl";
   unsigned maxT = std::min(galois::substrate::getThreadPool().getMaxThreads(), ctl ? 4u : (thorough ? 16u : 8u));
   if (ctl) {
